@@ -117,6 +117,20 @@ Walk(bs, alt, out, tags) ==
   ELSE Walk(Tail(bs), alt, Append(out, bs[1]), Append(tags, IF alt THEN "0" ELSE "n"))
 AsCodedEncode(cs, dec) == Walk(DropSiSo(AsCodedShifted(cs, dec)), FALSE, <<>>, <<>>)
 
+\* ------------------------------------------------------------------ the active encoding is process state
+\* "under the active encoding": urwid.set_encoding(name) selects the mode every later call works in (get_encoding_mode():
+\* 'utf8' for UTF-8, 'wide' for the double-byte CJK encodings, 'narrow' for 8-bit encodings).  The same byte string is a
+\* DIFFERENT text under another encoding: every answer has to be the one for the encoding active at the time of the call.
+Utf8Names == {"utf-8", "utf8", "utf"}
+WideNames == {"euc-jp", "euc-kr", "euc-cn", "euc-tw", "gb2312", "gbk", "big5", "cn-gb", "uhc"}
+EncodingMode(enc) == IF enc \in Utf8Names THEN "utf8" ELSE IF enc \in WideNames THEN "wide" ELSE "narrow"
+\* the bytes of a text (characters carry enc = their bytes in the encoding they were read in)
+AllBytes(cs) == Flat([k \in 1..Len(cs) |-> cs[k].enc])
+\* the text a byte string is under a single-byte encoding: every byte one character of one column
+NarrowView(bs) == [k \in 1..Len(bs) |-> [w |-> 1, b |-> 1, cp |-> bs[k], enc |-> <<bs[k]>>]]
+\* two texts are readings of one byte string
+SameBytes(cs1, cs2) == AllBytes(cs1) = AllBytes(cs2)
+
 \* ------------------------------------------------------------------ UTF-8 facts used by the per-code-point sweep
 Utf8Len(cp) == IF cp < 128 THEN 1 ELSE IF cp < 2048 THEN 2 ELSE IF cp < 65536 THEN 3 ELSE 4
 IsScalar(cp) == cp >= 0 /\ cp <= 1114111 /\ ~(cp >= 55296 /\ cp <= 57343)
